@@ -200,6 +200,9 @@ type c09Cfg struct {
 	nstart                    uint32
 	blockwise                 bool
 	closeSocket               bool
+	// busy, when non-nil: the connection's handler blocks on it for every request of the peer and the receive
+	// queue holds one message, so that the reader parks on a full queue (tcp transport)
+	busy chan struct{}
 }
 
 func (c *c09Conn) decode(b []byte) (message.Message, bool) {
@@ -443,6 +446,14 @@ func newC09Conn(tr int, cfg c09Cfg) (*c09Conn, error) {
 		tc.ReceivedMessageQueueSize = 16
 		tc.MessagePool = pool.New(64, 2048)
 		tc.Handler = func(w *responsewriter.ResponseWriter[*tcpClient.Conn], r *pool.Message) {}
+		if cfg.busy != nil {
+			tc.ReceivedMessageQueueSize = 1
+			tc.Handler = func(w *responsewriter.ResponseWriter[*tcpClient.Conn], r *pool.Message) {
+				if r.Code() >= codes.GET && r.Code() <= codes.DELETE {
+					<-cfg.busy
+				}
+			}
+		}
 		var topts []tcpClient.Option
 		if cfg.blockwise {
 			topts = append(topts, tcpClient.WithBlockWise(func(cc *tcpClient.Conn) *blockwise.BlockWise[*tcpClient.Conn] {
@@ -866,7 +877,13 @@ func runC09Close(k c09CloseCase) (c09CloseObs, error) {
 	if k.tr == 4 {
 		return runC09SrvConnClose(k)
 	}
-	c, err := newC09Conn(k.tr, c09Cfg{closeSocket: k.sock, limitTotal: 16, limitEndpoint: 16, nstart: 8})
+	ccfg := c09Cfg{closeSocket: k.sock, limitTotal: 16, limitEndpoint: 16, nstart: 8}
+	if k.tr == 1 && k.inflight%2 == 1 {
+		// Close arrives while the application handler is busy and the reader is parked on a full receive queue
+		ccfg.busy = make(chan struct{})
+		defer close(ccfg.busy)
+	}
+	c, err := newC09Conn(k.tr, ccfg)
 	if err != nil {
 		return o, err
 	}
@@ -893,6 +910,20 @@ func runC09Close(k c09CloseCase) (c09CloseObs, error) {
 	}
 	if !c.waitSent(k.inflight, 10*time.Second) {
 		return o, errors.New("setup: in-flight operations not written")
+	}
+	if ccfg.busy != nil {
+		for i := 0; i < 5; i++ {
+			c.deliver(c.encode(message.Message{Code: codes.GET, Token: []byte{0xB0, byte(i)}}))
+		}
+		deadline := time.Now().Add(3 * time.Second)
+		buf := make([]byte, 1<<20)
+		for time.Now().Before(deadline) {
+			n := runtime.Stack(buf, true)
+			if strings.Contains(string(buf[:n]), ").pushToReceivedMessageQueue(") {
+				break
+			}
+			time.Sleep(200 * time.Microsecond)
+		}
 	}
 	start := make(chan struct{})
 	var panics atomic.Int64
